@@ -1,0 +1,89 @@
+//go:build verif
+
+package tree
+
+// Contracts for tree.go, creator.go and expression.go. Comment-only: read by the verifier in /verif/govc.
+//
+// firstNode is the index of the first node with that title, or -1 (tail-recursive, matches the loop).
+//
+//@ opaque pure func findFrom(d *Dialogue, title string, i int) int {
+//@     return i >= len(d.Nodes) || i < 0 ? -1 : (d.Nodes[i].Headers["title"] == title ? i : findFrom(d, title, i + 1)) }
+//@ pure func firstNode(d *Dialogue, title string) int { return findFrom(d, title, 0) }
+//
+//@ func (n *Node) Title() (res string)
+//@   requires n != nil
+//@   ensures "title-header": res == n.Headers["title"]
+//
+//@ func (d *Dialogue) FindNode(title string) (node *Node, ok bool)
+//@   requires d != nil
+//@   ensures "first-with-title": ok == (firstNode(d, title) >= 0) &&
+//@           (ok ==> node != nil && fresh(node) && firstNode(d, title) < len(d.Nodes) && *node == d.Nodes[firstNode(d, title)]) &&
+//@           (!ok ==> node == nil)
+//@   loop 0: invariant 0 <= rangeindex + 1 && findFrom(d, title, 0) == findFrom(d, title, rangeindex + 1)
+//
+// ---- expression.go: token type -> operator (C02, C08: spellings share one token type each) ----------------
+//
+//@ pure func binOpOf(token int) int {
+//@     return token == parser.YarnSpinnerLexerOPERATOR_LOGICAL_LESS_THAN_EQUALS    ? LessThanEqualsBinaryOperator
+//@          : token == parser.YarnSpinnerLexerOPERATOR_LOGICAL_GREATER_THAN_EQUALS ? GreaterThanEqualsBinaryOperator
+//@          : token == parser.YarnSpinnerLexerOPERATOR_LOGICAL_EQUALS              ? EqualsBinaryOperator
+//@          : token == parser.YarnSpinnerLexerOPERATOR_LOGICAL_LESS                ? LessBinaryOperator
+//@          : token == parser.YarnSpinnerLexerOPERATOR_LOGICAL_GREATER             ? GreaterBinaryOperator
+//@          : token == parser.YarnSpinnerLexerOPERATOR_LOGICAL_NOT_EQUALS          ? NotEqualsBinaryOperator
+//@          : token == parser.YarnSpinnerLexerOPERATOR_LOGICAL_AND                 ? AndBinaryOperator
+//@          : token == parser.YarnSpinnerLexerOPERATOR_LOGICAL_OR                  ? OrBinaryOperator
+//@          : token == parser.YarnSpinnerLexerOPERATOR_LOGICAL_XOR                 ? XorBinaryOperator
+//@          : token == parser.YarnSpinnerLexerOPERATOR_MATHS_ADDITION              ? AdditionBinaryOperator
+//@          : token == parser.YarnSpinnerLexerOPERATOR_MATHS_SUBTRACTION           ? SubtractionBinaryOperator
+//@          : token == parser.YarnSpinnerLexerOPERATOR_MATHS_MULTIPLICATION        ? MultiplicationBinaryOperator
+//@          : token == parser.YarnSpinnerLexerOPERATOR_MATHS_DIVISION              ? DivisionBinaryOperator
+//@          : token == parser.YarnSpinnerLexerOPERATOR_MATHS_MODULUS               ? ModuloBinaryOperator : -1 }
+//@ pure func inplaceOpOf(token int) int {
+//@     return token == parser.YarnSpinnerLexerOPERATOR_ASSIGNMENT                  ? AssignmentInPlaceOperator
+//@          : token == parser.YarnSpinnerLexerOPERATOR_MATHS_MULTIPLICATION_EQUALS ? MultiplicationInPlaceOperator
+//@          : token == parser.YarnSpinnerLexerOPERATOR_MATHS_DIVISION_EQUALS       ? DivisionInPlaceOperator
+//@          : token == parser.YarnSpinnerLexerOPERATOR_MATHS_MODULUS_EQUALS        ? ModuloInPlaceOperator
+//@          : token == parser.YarnSpinnerLexerOPERATOR_MATHS_ADDITION_EQUALS       ? AdditionInPlaceOperator
+//@          : token == parser.YarnSpinnerLexerOPERATOR_MATHS_SUBTRACTION_EQUALS    ? SubtractionInPlaceOperator : -1 }
+//
+//@ func tokenToBinaryOperator(token int) (op *int, ok bool)
+//@   ensures "operator-table": ok == (binOpOf(token) >= 0) && op != nil && (ok ==> *op == binOpOf(token))
+//
+//@ func tokenToInplaceOperator(token int) (op *int, ok bool)
+//@   ensures "operator-table": ok == (inplaceOpOf(token) >= 0) && op != nil && (ok ==> *op == inplaceOpOf(token))
+//
+// ---- tree.go: command words (C17) ----------------------------------------------------------------------------
+//
+// A word is true / false (booleans), a decimal literal, optionally negative (a number), or a string.
+//
+//@ pure func isDecimalLiteral(w string) bool { return matches(w, "-?[0-9]+(\\.[0-9]+)?") }
+//
+//@ func valueFromCommandText(commandText string) (v *variable.Value)
+//@   requires "non-empty-word": commandText != ""
+//@   carveout "D19": parseFloatOK(commandText) && commandText[0] != '+' ==> isDecimalLiteral(commandText)
+//@   ensures "word-table": wfVal(v) && fresh(v) &&
+//@           (commandText == "true" ? absval(v) == VBool(true)
+//@          : commandText == "false" ? absval(v) == VBool(false)
+//@          : isDecimalLiteral(commandText) ? absval(v) == VNum(parseFloatVal(commandText))
+//@          : absval(v) == VStr(commandText))
+//
+// ---- creator.go: loading (C01, C05, C08) ---------------------------------------------------------------------
+//
+// Cparse (assumed; bounded stand-in B-parse / B-load): FromReader is the ANTLR lexer and parser plus
+// the closure-stack listener, outside the verifier's subset. What the runner relies on:
+//
+//@ func FromReader(reader io.Reader) (dialogue *Dialogue, err error)
+//@   trusted
+//@   ensures err == nil ==> dialogue != nil && fresh(dialogue) && len(dialogue.Nodes) >= 1 && fresh(dialogue.Nodes) && wfDialogue(dialogue)
+//@   ensures err != nil ==> dialogue == nil
+//
+//@ func FromReaders(readers []io.Reader) (dialogue *Dialogue, err error)
+//@   ensures "nonempty-or-error": (err == nil ==> dialogue != nil && fresh(dialogue) && len(dialogue.Nodes) >= 1 && wfDialogue(dialogue)) &&
+//@                                (err != nil ==> dialogue == nil)
+//@   ensures "no-reader-is-error": len(readers) == 0 ==> err != nil
+//@   ghost after call append#0 {
+//@       assert "kept": forall i int :: {callres[i]} 0 <= i && i < len(dialogue.Nodes) ==> callres[i] == dialogue.Nodes[i]
+//@       assert "appended": forall i int :: {callres[i]} len(dialogue.Nodes) <= i && i < len(callres) ==> callres[i] == d.Nodes[i - len(dialogue.Nodes)]
+//@   }
+//@   loop 0: invariant dialogue != nil && fresh(dialogue) && wfDialogue(dialogue) && 0 <= rangeindex + 1 &&
+//@                     (rangeindex + 1 > 0 ==> len(dialogue.Nodes) >= 1) && (arrayOf(dialogue.Nodes) == 0 || fresh(dialogue.Nodes))
